@@ -17,6 +17,7 @@ From Coq Require Import Permutation.
 From J5V.model Require CodecDecCommute.
 From J5V.proofs Require CodecDecMsgSorted CodecDecReorder CodecDecLenient CodecDecOneofReorder CodecDecDenote CodecDecFull CodecDecSpace CodecDecFloatProofs CodecDecLeaf CodecDecExposedStored.
 From J5V.model Require CodecDecFloat CodecDecExposedCheck.
+From J5V.proofs Require CodecDecConverse CodecDecConversePerm.
 Import ListNotations.
 Local Open Scope N_scope.
 
@@ -927,4 +928,132 @@ Print Assumptions C03_exposed_oneof_members_stored.
    - the hypothesis [lex bs = (tokens_of (JObj ms) ++ rest, me)]: that every accepted text has such a
      reading is not proved (malformed texts end the token list early and the descent fails on them);
    - (2) is one direction (accepted original => accepted variant); the converse holds for member
-     reordering and null padding of the root (C03_reordered_document_same_message, iff). *)
+     reordering and null padding of the root (C03_reordered_document_same_message, iff) and for respelled
+     leaves and permuted members at any depth (C03_respelled_document_iff, C03_variant_without_nulls_document_iff
+     below); not for nulls added below the root. *)
+
+(* ------------------------------------------------------------------ the converse for respelled leaves
+   CodecDecConverse.respelled = the fragment of the leniency relation that keeps the member order and adds no
+   nulls: at any depth a leaf replaced by another spelling that the field kind's conversion maps to the same
+   result (quoted / bare number, base64 forms, enum prefix, timestamp offsets), arrays / maps elementwise.
+   The fragment is symmetric, so a document and its respelling are accepted together with the same message,
+   and rejected together: in particular no respelling of a REJECTED document is accepted. *)
+Theorem C03_respelled_is_symmetric : forall orc e root ms ms',
+  CodecDecConverse.doc_respelled orc e root ms ms' -> CodecDecConverse.doc_respelled orc e root ms' ms.
+Proof. exact CodecDecConverse.doc_respelled_sym. Qed.
+Print Assumptions C03_respelled_is_symmetric.
+
+Theorem C03_respelled_is_documented_variant : forall orc e root ms ms',
+  CodecDecConverse.doc_respelled orc e root ms ms' -> CodecDecFull.doc_variant orc e root ms ms'.
+Proof. exact CodecDecConverse.doc_respelled_variant. Qed.
+Print Assumptions C03_respelled_is_documented_variant.
+
+Theorem C03_respelled_document_iff : forall orc e root bs bs' ms ms' me me',
+  env_separate e = true -> CodecDecCommute.env_commute e = true ->
+  lex bs = (tokens_of (JObj ms), me) -> lex_at_eof bs = true ->
+  lex bs' = (tokens_of (JObj ms'), me') -> lex_at_eof bs' = true ->
+  CodecDecConverse.doc_respelled orc e root ms ms' ->
+  forall m', decode_document orc e root bs = Ok m' <-> decode_document orc e root bs' = Ok m'.
+Proof. exact CodecDecConverse.respelled_document_iff. Qed.
+Print Assumptions C03_respelled_document_iff.
+
+Theorem C03_respelled_document_rejected_iff : forall orc e root bs bs' ms ms' me me',
+  env_separate e = true -> CodecDecCommute.env_commute e = true ->
+  lex bs = (tokens_of (JObj ms), me) -> lex_at_eof bs = true ->
+  lex bs' = (tokens_of (JObj ms'), me') -> lex_at_eof bs' = true ->
+  CodecDecConverse.doc_respelled orc e root ms ms' ->
+  (is_err (decode_document orc e root bs) = true <-> is_err (decode_document orc e root bs') = true).
+Proof. exact CodecDecConverse.respelled_document_rejected_iff. Qed.
+Print Assumptions C03_respelled_document_rejected_iff.
+
+(* non-vacuity: {"c":{"i":"-7"}} and {"c":{"i":-7}} on an environment with an int32 below a recursive object:
+   both schema checks hold, the two member lists are related (in both directions), and both texts decode to
+   the same message *)
+Definition rs_env : env :=
+  [([78], SObject [mkProp [105] [6] false false [] (FScalar KInt32);
+                   mkProp [99] [5] false true [] (FObject [78])])].
+Definition rs_ms (v : jvalue) : list (bytes * jvalue) := [([99], JObj [([105], v)])].
+(* {"c":{"i":"-7"}} *)
+Definition rs_doc_quoted : bytes := [123;34;99;34;58;123;34;105;34;58;34;45;55;34;125;125].
+(* {"c":{"i":-7}} *)
+Definition rs_doc_bare : bytes := [123;34;99;34;58;123;34;105;34;58;45;55;125;125].
+Example C03_example_respelled_converse :
+  env_separate rs_env = true /\ CodecDecCommute.env_commute rs_env = true /\
+  lex rs_doc_quoted = (tokens_of (JObj (rs_ms (JStr [45;55]))), false) /\ lex_at_eof rs_doc_quoted = true /\
+  lex rs_doc_bare = (tokens_of (JObj (rs_ms (JNum [45;55]))), false) /\ lex_at_eof rs_doc_bare = true /\
+  CodecDecConverse.doc_respelled no_oracles rs_env [78] (rs_ms (JStr [45;55])) (rs_ms (JNum [45;55])) /\
+  decode_document no_oracles rs_env [78] rs_doc_quoted = Ok [(5, VMsg [(6, VInt (-7))])] /\
+  decode_document no_oracles rs_env [78] rs_doc_bare = Ok [(5, VMsg [(6, VInt (-7))])].
+Proof.
+  split; [vm_compute; reflexivity|]. split; [vm_compute; reflexivity|].
+  split; [vm_compute; reflexivity|]. split; [vm_compute; reflexivity|].
+  split; [vm_compute; reflexivity|]. split; [vm_compute; reflexivity|].
+  split; [|split; vm_compute; reflexivity].
+  left. eexists. split; [vm_compute; reflexivity|].
+  eapply CodecDecConverse.RM_member; [reflexivity | vm_compute; reflexivity | split; discriminate | | apply CodecDecConverse.RM_nil].
+  cbn [p_ty]. eapply CodecDecConverse.R_object; [vm_compute; reflexivity|].
+  eapply CodecDecConverse.RM_member; [reflexivity | vm_compute; reflexivity | split; discriminate | | apply CodecDecConverse.RM_nil].
+  cbn [p_ty]. apply CodecDecConverse.R_scalar; [reflexivity | reflexivity | split; discriminate | vm_compute; reflexivity].
+Qed.
+
+(* ------------------------------------------------------------------ the converse with member permutation
+   CodecDecConversePerm.vrespelled = the leniency relation WITHOUT added nulls: at every level the members
+   permuted (a oneof body with at most one "!type"), then leaves respelled.  Same-order respelling commutes
+   with a permutation (vm_perm), so this fragment is symmetric as well: a document and such a variant are
+   accepted together with the same message and rejected together.  What is left one-directional is only the
+   addition of explicit nulls below the root (the relation itself is not symmetric there: the variant has more
+   members; at the root the iff is C03_null_padded_reordered_document_same_message). *)
+Theorem C03_variant_without_nulls_is_symmetric : forall orc e root ms ms',
+  CodecDecConversePerm.doc_vrespelled orc e root ms ms' -> CodecDecConversePerm.doc_vrespelled orc e root ms' ms.
+Proof. exact CodecDecConversePerm.doc_vrespelled_sym. Qed.
+Print Assumptions C03_variant_without_nulls_is_symmetric.
+
+Theorem C03_variant_without_nulls_is_documented_variant : forall orc e root ms ms',
+  CodecDecConversePerm.doc_vrespelled orc e root ms ms' -> CodecDecFull.doc_variant orc e root ms ms'.
+Proof. exact CodecDecConversePerm.doc_vrespelled_variant. Qed.
+Print Assumptions C03_variant_without_nulls_is_documented_variant.
+
+Theorem C03_variant_without_nulls_document_iff : forall orc e root bs bs' ms ms' me me',
+  env_separate e = true -> CodecDecCommute.env_commute e = true ->
+  lex bs = (tokens_of (JObj ms), me) -> lex_at_eof bs = true ->
+  lex bs' = (tokens_of (JObj ms'), me') -> lex_at_eof bs' = true ->
+  CodecDecConversePerm.doc_vrespelled orc e root ms ms' ->
+  forall m', decode_document orc e root bs = Ok m' <-> decode_document orc e root bs' = Ok m'.
+Proof. exact CodecDecConversePerm.vrespelled_document_iff. Qed.
+Print Assumptions C03_variant_without_nulls_document_iff.
+
+Theorem C03_variant_without_nulls_rejected_iff : forall orc e root bs bs' ms ms' me me',
+  env_separate e = true -> CodecDecCommute.env_commute e = true ->
+  lex bs = (tokens_of (JObj ms), me) -> lex_at_eof bs = true ->
+  lex bs' = (tokens_of (JObj ms'), me') -> lex_at_eof bs' = true ->
+  CodecDecConversePerm.doc_vrespelled orc e root ms ms' ->
+  (is_err (decode_document orc e root bs) = true <-> is_err (decode_document orc e root bs') = true).
+Proof. exact CodecDecConversePerm.vrespelled_document_rejected_iff. Qed.
+Print Assumptions C03_variant_without_nulls_rejected_iff.
+
+(* non-vacuity on rs_env: members swapped and both integers respelled *)
+(* {"i":"3","c":{"i":"-7"}} *)
+Definition rp_doc : bytes := [123;34;105;34;58;34;51;34;44;34;99;34;58;123;34;105;34;58;34;45;55;34;125;125].
+Definition rp_ms : list (bytes * jvalue) := [([105], JStr [51]); ([99], JObj [([105], JStr [45;55])])].
+(* {"c":{"i":-7},"i":3} *)
+Definition rp_doc' : bytes := [123;34;99;34;58;123;34;105;34;58;45;55;125;44;34;105;34;58;51;125].
+Definition rp_ms' : list (bytes * jvalue) := [([99], JObj [([105], JNum [45;55])]); ([105], JNum [51])].
+Example C03_example_variant_converse :
+  lex rp_doc = (tokens_of (JObj rp_ms), false) /\ lex_at_eof rp_doc = true /\
+  lex rp_doc' = (tokens_of (JObj rp_ms'), false) /\ lex_at_eof rp_doc' = true /\
+  CodecDecConversePerm.doc_vrespelled no_oracles rs_env [78] rp_ms rp_ms' /\
+  decode_document no_oracles rs_env [78] rp_doc = Ok [(5, VMsg [(6, VInt (-7))]); (6, VInt 3)] /\
+  decode_document no_oracles rs_env [78] rp_doc' = Ok [(5, VMsg [(6, VInt (-7))]); (6, VInt 3)].
+Proof.
+  split; [vm_compute; reflexivity|]. split; [vm_compute; reflexivity|].
+  split; [vm_compute; reflexivity|]. split; [vm_compute; reflexivity|].
+  split; [|split; vm_compute; reflexivity].
+  left. eexists. exists [([99], JObj [([105], JStr [45;55])]); ([105], JStr [51])].
+  split; [vm_compute; reflexivity|]. split; [apply perm_swap|].
+  eapply CodecDecConversePerm.VM_member; [reflexivity | vm_compute; reflexivity | split; discriminate | |].
+  - cbn [p_ty]. eapply CodecDecConversePerm.V_object; [vm_compute; reflexivity | apply Permutation_refl |].
+    eapply CodecDecConversePerm.VM_member; [reflexivity | vm_compute; reflexivity | split; discriminate | | apply CodecDecConversePerm.VM_nil].
+    cbn [p_ty]. apply CodecDecConversePerm.V_scalar; [reflexivity | reflexivity | split; discriminate | vm_compute; reflexivity].
+  - eapply CodecDecConversePerm.VM_member; [reflexivity | vm_compute; reflexivity | split; discriminate | | apply CodecDecConversePerm.VM_nil].
+    cbn [p_ty]. apply CodecDecConversePerm.V_scalar; [reflexivity | reflexivity | split; discriminate | vm_compute; reflexivity].
+Qed.
